@@ -110,7 +110,35 @@ func (c *CustomS) Unmarshal(b []byte) error {
 	return nil
 }
 
+// MsgPM implements proto.Message like Msg and additionally carries the
+// ProtoMessage() marker of generated protobuf types. The library tests the
+// Message interface first, so it is encoded exactly like Msg (by its own
+// methods, writing its own length prefix when nested).
+type MsgPM struct {
+	X uint64
+	S string
+}
+
+func (m *MsgPM) Size() int                { return (*Msg)(m).Size() }
+func (m *MsgPM) Marshal(b []byte) error   { return (*Msg)(m).Marshal(b) }
+func (m *MsgPM) Unmarshal(b []byte) error { return (*Msg)(m).Unmarshal(b) }
+func (*MsgPM) ProtoMessage()              {}
+
+// CustomSPM has the gogo-style custom methods AND the ProtoMessage() marker:
+// codecOf only takes the custom path for types without the marker, so the
+// library treats it as an ordinary struct encoded by reflection (field 1 =
+// bytes V, length prefix written by the enclosing codec); its methods are
+// never called. In the corpus it is therefore a plain struct, not an
+// implementer.
+type CustomSPM struct{ V []byte }
+
+func (c *CustomSPM) Size() int                       { return (*CustomS)(c).Size() }
+func (c *CustomSPM) MarshalTo(b []byte) (int, error) { return (*CustomS)(c).MarshalTo(b) }
+func (c *CustomSPM) Unmarshal(b []byte) error        { return (*CustomS)(c).Unmarshal(b) }
+func (*CustomSPM) ProtoMessage()                     {}
+
 var (
+	_ proto.Message = (*MsgPM)(nil)
 	_ proto.Message = (*Msg)(nil)
 	_ proto.Message = (*proto.RawMessage)(nil)
 )
@@ -177,6 +205,10 @@ func init() {
 	register(&NamedInfo{Name: "RawMessage", RT: reflect.TypeOf(proto.RawMessage(nil)), Impl: "message", Under: &TypeDesc{K: KBytes}})
 	register(&NamedInfo{Name: "Msg", RT: reflect.TypeOf(Msg{}), Impl: "message", Under: &TypeDesc{K: KStruct, Name: "Msg", Fields: []FieldDesc{
 		{Name: "X", Num: 1, T: leaf(KUint64)}, {Name: "S", Num: 2, T: leaf(KString)}}}})
+	register(&NamedInfo{Name: "MsgPM", RT: reflect.TypeOf(MsgPM{}), Impl: "message", Under: &TypeDesc{K: KStruct, Name: "MsgPM", Fields: []FieldDesc{
+		{Name: "X", Num: 1, T: leaf(KUint64)}, {Name: "S", Num: 2, T: leaf(KString)}}}})
+	register(&NamedInfo{Name: "CustomSPM", RT: reflect.TypeOf(CustomSPM{}), Under: &TypeDesc{K: KStruct, Name: "CustomSPM", Fields: []FieldDesc{
+		{Name: "V", Num: 1, T: leaf(KBytes)}}}})
 	register(&NamedInfo{Name: "Custom16", RT: reflect.TypeOf(Custom16{}), Impl: "custom", Under: &TypeDesc{K: KArray, Len: 16}})
 	register(&NamedInfo{Name: "CustomS", RT: reflect.TypeOf(CustomS{}), Impl: "custom", Under: &TypeDesc{K: KStruct, Name: "CustomS", Fields: []FieldDesc{
 		{Name: "V", Num: 1, T: leaf(KBytes)}}}})
@@ -208,6 +240,6 @@ func init() {
 
 // ImplNames / StructNames partition the corpus.
 var (
-	ImplNames   = []string{"RawMessage", "Msg", "Custom16", "CustomS"}
-	StructNames = []string{"Rec", "Tree", "RecMap", "Hidden", "Opt2", "PTree", "PRecMap"}
+	ImplNames   = []string{"RawMessage", "Msg", "Custom16", "CustomS", "MsgPM"}
+	StructNames = []string{"Rec", "Tree", "RecMap", "Hidden", "Opt2", "PTree", "PRecMap", "CustomSPM"}
 )
